@@ -1060,7 +1060,7 @@ fn advance_one(p: &Program, s0: &MState, t: usize, evs: &[&Event], out: &mut BTr
                 // only destructor / extra events may follow
                 if ei < evs.len() {
                     let e = evs[ei];
-                    if matches!(e.kind.as_str(), "D" | "Y" | "T" | "DA" | "LD" | "SD" | "C") {
+                    if matches!(e.kind.as_str(), "D" | "Y" | "T" | "DA" | "LD" | "SD" | "C" | "CI" | "CD") {
                         stack.push((s.clone(), ei + 1, started_here));
                     }
                     continue;
@@ -1150,7 +1150,7 @@ fn advance_one(p: &Program, s0: &MState, t: usize, evs: &[&Event], out: &mut BTr
                             }
                             continue;
                         }
-                        "Y" | "P" | "F" | "T" | "D" | "DA" | "LD" | "SD" | "C" => {
+                        "Y" | "P" | "F" | "T" | "D" | "DA" | "LD" | "SD" | "C" | "CI" | "CD" => {
                             stack.push((s.clone(), ei + 1, started_here));
                             continue;
                         }
